@@ -49,7 +49,7 @@ NAME = {PS: "tdvp_ps", PS2: "tdvp_ps2", VMF: "tdvp_vmf", PC: "pc_tdrk4"}
 
 # relative error allowed vs expm for the schemes that are exact under the stated conditions.
 # local solver: expm_krylov stops when two iterates agree to allclose(rtol 1e-5, atol 1e-8); observed
-# errors are 1e-13..1e-9; VMF integrates with ivp_rtol 1e-8 / atol 1e-10 (observed <= 1e-7).
+# errors are 1e-13..1e-9; VMF integrates with ivp_rtol 1e-7 / atol 1e-9 (observed <= 1e-6).
 TOL_EXACT = {PS: 2e-6, PS2: 2e-6, VMF: 2e-5}
 TOL_VMF_DEFAULT = 2e-3      # default ivp_rtol=1e-5, ivp_atol=1e-8
 TOL_POLY = 1e-9             # P&C vs its own Taylor polynomial, no truncation
@@ -59,7 +59,7 @@ TOL_LABEL = 1e-9
 
 def _cfg(t, method, tight=True, mmax=200):
     if tight:
-        t.evolve_config = EvolveConfig(method, ivp_rtol=1e-8, ivp_atol=1e-10, force_ovlp=False)
+        t.evolve_config = EvolveConfig(method, ivp_rtol=1e-7, ivp_atol=1e-9, force_ovlp=False)
     else:
         t.evolve_config = EvolveConfig(method, force_ovlp=False)
     t.compress_config = CompressConfig(CompressCriteria.fixed, max_bonddim=mmax)
@@ -126,6 +126,27 @@ def _pick(rng, spec, method, p_norm=0.5, aux=False):
     if aux and method is PS2 and rng.random() < 0.8:
         method = PS
     return method, normalize
+
+
+def _draw_method(rng, allowed=(0, 1, 2, 3)):
+    w = np.array([0.32, 0.3, 0.16, 0.22])[list(allowed)]
+    return METHODS[int(rng.choice(list(allowed), p=w / w.sum()))]
+
+
+def _prep_vmf(rng, t):
+    """VMF inverts the bond overlap matrices: null Schmidt vectors (over-complete bonds from
+    TTNS.random) make the regularised ODE stiff and one call takes 10+ s.  Mostly remove them first
+    (lossless compression at threshold 1e-9); the un-prepared path is still taken sometimes."""
+    if rng.random() < 0.12:
+        return t, False
+    t2 = t.copy()
+    t2.compress_config = CompressConfig(CompressCriteria.threshold, threshold=1e-9)
+    try:
+        t2.canonicalise()
+        t2.compress()
+    except Exception:
+        return t, False
+    return t2, True
 
 
 def _classify(spec, fam, method, key, e):
@@ -280,16 +301,18 @@ def fam_exact(cx):
     state0 = dict(np_seed=seed, qntot=np.asarray(q).tolist(), coeff=[complex(t.coeff).real, complex(t.coeff).imag], tensors=L.tensors_json(t))
     nstep = int(rng.integers(1, 4))
     hist = []
-    methods = list(rng.permutation(4))
     cx.distinct.add(("exact", len(spec["nodes"]), spec["family"], spec["qn_size"], tuple(sorted(b["kind"] for b in spec["basis"]))))
     run.count(f"tree:{spec['family']}:nodes={len(spec['nodes'])}:qn={spec['qn_size']}")
     run.count("dummy-nodes", sum(1 for n in spec["nodes"] if not n["sets"]))
     run.count("multi-basis-nodes", sum(1 for n in spec["nodes"] if len(n["sets"]) > 1))
     for k in range(nstep):
-        method, normalize = _pick(rng, spec, METHODS[int(methods[k % 4])])
+        method, normalize = _pick(rng, spec, _draw_method(rng))
         imag = bool(rng.random() < 0.5)
-        tau = _tau(rng, hn, imag, 0.05, 2.0 if method is not PC else 0.8)
+        tau = _tau(rng, hn, imag, 0.05, {PC: 0.8, VMF: 0.5}.get(method, 2.0))
         tight = bool(method is not VMF or rng.random() < 0.7)
+        if method is VMF:
+            t, prepared = _prep_vmf(rng, t)
+            run.count("vmf:prepared" if prepared else "vmf:raw-bonds")
         hist.append((method, tau, normalize))
         new = _evolve_checked(cx, "exact", spec, ttno, h, lab, q, t, method, tau, normalize, TOL_EXACT, state0, hist,
                               tight=tight, tol_override=(TOL_VMF_DEFAULT if (method is VMF and not tight) else None))
@@ -344,12 +367,14 @@ def fam_cluster(cx):
     run.count(f"cluster:bonds={'-'.join(str(x) for x in sorted(set(t.bond_dims)))}")
     cx.distinct.add(("cluster", nn, tuple(sorted(mcut.values())), spec["qn_size"], tuple(sorted(b["kind"] for b in spec["basis"]))))
     hist = []
-    methods = list(rng.permutation(3))     # the three TDVP schemes; P&C is covered by `exact`
     nstep = int(rng.integers(1, 4))
     for k in range(nstep):
-        method, normalize = _pick(rng, spec, METHODS[int(methods[k % 3])])
+        method, normalize = _pick(rng, spec, _draw_method(rng, (0, 1, 2)))   # P&C is covered by `exact`
         imag = bool(rng.random() < 0.5)
-        tau = _tau(rng, hn, imag, 0.05, 2.0)
+        tau = _tau(rng, hn, imag, 0.05, 0.5 if method is VMF else 2.0)
+        if method is VMF:
+            t, prepared = _prep_vmf(rng, t)
+            run.count("vmf:prepared" if prepared else "vmf:raw-bonds")
         hist.append((method, tau, normalize))
         new = _evolve_checked(cx, "cluster", spec, ttno, h, lab, q, t, method, tau, normalize, TOL_EXACT, state0, hist)
         if new is None:
@@ -515,13 +540,13 @@ def fam_chain(cx):
         run.violation("chain:from_mps:state-differs", dict(spec=spec, np_seed=seed, diff=float(np.linalg.norm(tree_vec(ttns) - psi0))))
         return
     hn = np.linalg.norm(h, 2)
-    method, normalize = _pick(rng, spec, METHODS[int(rng.integers(4))])
+    method, normalize = _pick(rng, spec, _draw_method(rng))
     if not spec["trivial_qn"] and method in (PS, PS2):
         # with labels projector splitting is second order only and the two implementations sweep in
         # opposite directions: no statement to compare
         method = VMF if rng.random() < 0.5 else PC
     imag = bool(rng.random() < 0.5)
-    tau = _tau(rng, hn, imag, 0.05, 1.5 if method is not PC else 0.6)
+    tau = _tau(rng, hn, imag, 0.05, {PC: 0.6, VMF: 0.5}.get(method, 1.5))
     key = f"chain:{NAME[method]}:{'imag' if imag else 'real'}"
     run.count("call:" + key)
     cx.distinct.add(("chain", nsite, NAME[method], imag, spec["qn_size"]))
@@ -618,11 +643,13 @@ def fam_aux(cx):
     state0 = dict(np_seed=seed, qntot=np.asarray(q).tolist(), tensors=L.tensors_json(t), aux=True)
     hist = []
     cx.distinct.add(("aux", len(spec["nodes"]), spec["qn_size"], tuple(sorted(b["kind"] for b in spec["basis"]))))
-    methods = list(rng.permutation(4))
     for k in range(int(rng.integers(1, 3))):
-        method, normalize = _pick(rng, spec, METHODS[int(methods[k])], aux=True)
+        method, normalize = _pick(rng, spec, _draw_method(rng), aux=True)
         imag = bool(rng.random() < 0.6)
-        tau = _tau(rng, hn, imag, 0.05, 1.5 if method is not PC else 0.6)
+        tau = _tau(rng, hn, imag, 0.05, {PC: 0.6, VMF: 0.5}.get(method, 1.5))
+        if method is VMF:
+            t, prepared = _prep_vmf(rng, t)
+            run.count("vmf:prepared" if prepared else "vmf:raw-bonds")
         hist.append((method, tau, normalize))
         new = _evolve_checked(cx, "aux", spec, ttno, hfull, lab, q, t, method, tau, normalize, TOL_EXACT, state0, hist)
         if new is None:
